@@ -29,11 +29,23 @@ THEOREMS = [
     'CC.C17_roundtrip', 'CC.C17_roundtrip_codec', 'CC.C17_dictify_converts', 'CC.C17_undictify_scalar_list',
     'CC.C17_circuit_complex', 'CC.C17_no_decorated_loader', 'CC.C17_notation_shape', 'CC.C17_mixed_keys',
 ]
+# round 5 (CC/Properties/C17Circuit.lean): the circuit loader through the dictionary -> constructor-call step, every kind, every entry dictionary
+LEAN_MODULE_EXTRA = list(globals().get('LEAN_MODULE_EXTRA', [])) + ['CC.Properties.C17Circuit']
+THEOREMS += [
+    'CC.C17_circuit_fields', 'CC.C17_circuit_entry_keys_ignored', 'CC.C17_circuit_missing_key', 'CC.C17_circuit_unknown_kind',
+    'CC.C17_circuit_table_wellformed', 'CC.C17_circuit_loads_given', 'CC.C17_circuit_faithful', 'CC.C17_circuit_bad_value_block',
+    'CC.C17_circuit_ctor_tables_agree', 'CC.C17_circuit_constructor_half', 'CC.C17_circuit_translator_reads_loaded',
+]
 OPEN_STATEMENTS = [
-    'circuit loader, general clause "every kind of the circuit table loads to exactly the given id, nodes and value": in CC.Properties.C17 only '
-    'C17_circuit_table_total (names), C17_circuit_pure/idempotent and C17_circuit_complex (impedance, fixed id/nodes); the constructor half is '
-    'proved on the Circuit group\'s model (CC.C19_stored_unaltered, CC.C07_reads_written); the dictionary → constructor-call step '
-    '(generateComponent) is tied by correspondence + intended-meaning oracle only',
+    'circuit loader, constructor half as a simulation: CC.Properties.C17Circuit proves the clause "every kind of the circuit table loads to exactly '
+    'the given id, nodes and value" on the loader model, through the dictionary → constructor-call step (C17_circuit_fields, C17_circuit_faithful, '
+    'typed errors, extra entry keys ignored / extra value keys rejected), and ties it to the Circuit group\'s constructor model by agreeing generated '
+    'descriptions (C17_circuit_ctor_tables_agree, C17_circuit_constructor_half with CC.C19_stored_unaltered / CC.C07_reads_written); NOT a theorem: '
+    'that the two hand-written constructor interpreters (Load.callCompFactory, CtorSpec.construct) return equal results on equal arguments '
+    '(both are tied to the code by their correspondence runs)',
+    'circuit loader: Load.accepts is characterised by a sufficient condition only (Load.accepts_of); that a value block which is not accepted always '
+    'raises (guard ValueError, AttributeError of .real/.imag) is covered by correspondence + fault streams, proved only for unknown / missing keywords '
+    'and non-mappings (C17_circuit_bad_value_block); Circuit.__post_init__ on the component list is C19\'s',
 ]
 ASSUMPTIONS = [
     'json/yaml are parameters of the model: `loads (dumps t) = t` on plain trees for the library pairs of the two tables (LosslessCodec; checked per case by the round-trip oracle; satisfiability shown by a toy codec only)',
